@@ -520,7 +520,8 @@ let do_solo tokens =
   match tokens with
   | tid :: rest ->
       let steps = int_of_string (kv_exn rest "steps") in
-      let bound = (2 * r.thuge * (4 + (3 * r.rows))) + 16 in
+      (* the bound proved in Progress.v: bound g = thuge * (5 * rows + 7) + 4 * rows + 15 *)
+      let bound = (r.thuge * ((5 * r.rows) + 7)) + (4 * r.rows) + 15 in
       if steps > !solomax then solomax := steps;
       let res =
         let rec after = function [] -> "" | t :: q -> if String.length t >= 7 && String.sub t 0 7 = "result=" then String.concat " " (String.sub t 7 (String.length t - 7) :: q) else after q in
